@@ -101,10 +101,11 @@ class FaultSched(Scheduling):
     """Fault kinds F2 (adversarial proposals) and F3 (stalled rounds) around a
     shipped scheduling algorithm."""
 
-    def __init__(self, inner, adv=None, stalls=None, explicit=None, norelease=False, ontime=False):
+    def __init__(self, inner, adv=None, stalls=None, explicit=None, norelease=False, ontime=False, copies=False):
         super().__init__()
         self.inner = inner
         self.ontime = ontime
+        self.copies = copies
         self.norelease = norelease      # a user algorithm that leaves the release of its reservation to the Scheduler
         self.adv = adv
         self.rng = random.Random('adv/%s' % adv['seed']) if adv else None
@@ -142,6 +143,12 @@ class FaultSched(Scheduling):
         else:
             alloc, status, pool = self.inner.run(cluster, clock, workflow_plan,
                                                  existing_schedule, task_pool)
+        if self.copies:
+            # equal (same id) but not identical Machine objects, as an algorithm that works on copies would return
+            for t_ in list(alloc):
+                if t_ not in existing_schedule:
+                    alloc[t_] = copy.copy(alloc[t_])
+                    self.fired['copies'] += 1
         if self.ontime:
             from topsim.core.planner import WorkflowStatus as _WS
             if status is _WS.SCHEDULED:
@@ -321,9 +328,9 @@ def build(sc, d, env, monitor=None):
     else:
         raise ValueError(p)
     fs = None
-    if f.get('adv') or f.get('stalls') or f.get('norelease') or f.get('ontime_status'):
+    if f.get('adv') or f.get('stalls') or f.get('norelease') or f.get('ontime_status') or f.get('copy_machines'):
         fs = FaultSched(alg, f.get('adv'), f.get('stalls'), norelease=bool(f.get('norelease')) and p == 'batch',
-                        ontime=bool(f.get('ontime_status')))
+                        ontime=bool(f.get('ontime_status')), copies=bool(f.get('copy_machines')))
         alg = fs
     sim = Simulation(env, cfg, Telescope, planning_model=plan,
                      planning_algorithm=plan.algorithm, scheduling=alg,
@@ -465,7 +472,7 @@ def run_scenario(sc, d, oracle_cls=None, pauses=None, monitor=None, budget=None,
         if env.perm_changed:
             res.faults['F4'] += env.perm_changed
         if fs is not None:
-            res.faults.update({('F3' if k == 'F3' else 'F9:' + k if k in ('norelease', 'ontime') else 'F2:' + k): v for k, v in fs.fired.items()})
+            res.faults.update({('F3' if k == 'F3' else 'F9:' + k if k in ('norelease', 'ontime', 'copies') else 'F2:' + k): v for k, v in fs.fired.items()})
         try:
             orc.finish()
         except Exception as e:      # oracle crash = harness error, never a violation
